@@ -39,13 +39,14 @@ type c11ConcReplay struct {
 }
 
 type c11ConcResult struct {
-	out        *sched.Outcome
-	violations [][2]string
-	harness    string
-	outcome    string
-	pruned     bool
-	contended  bool
-	resaved    bool // an in-flight request saved the session while the sign-out was in progress or after it started
+	inconclusive bool
+	out          *sched.Outcome
+	violations   [][2]string
+	harness      string
+	outcome      string
+	pruned       bool
+	contended    bool
+	resaved      bool // an in-flight request saved the session while the sign-out was in progress or after it started
 }
 
 func c11ConcExec(e *c12Env, sc c11ConcScenario, x *explore.Exec, prune bool, seed int64) *c11ConcResult {
@@ -110,6 +111,11 @@ func c11ConcExec(e *c12Env, sc c11ConcScenario, x *explore.Exec, prune bool, see
 		res.violations = append(res.violations, [2]string{"C11/concurrent/" + key, msg})
 	}
 	switch out.Aborted {
+	case sched.StuckAborted:
+		// a thread blocked outside the scheduler (a primitive of a dependency): inconclusive
+		res.outcome = "given-up:" + sched.StuckAborted
+		res.inconclusive = true
+		return res
 	case "deadlock":
 		add("deadlock", fmt.Sprintf("no thread enabled, blocked: %v", out.Blocked))
 		return res
@@ -235,6 +241,11 @@ func c11Concurrent(c *Ctx) {
 			}
 			if res.harness != "" {
 				c.Error("concurrent sign-out %+v: %s", sc, res.harness)
+				return
+			}
+			if res.inconclusive {
+				c.Inc("executions_given_up_thread_blocked_outside_the_scheduler")
+				c.Unstable("concurrent sign-out %+v: %s %v", sc, res.outcome, res.out.Blocked)
 				return
 			}
 			c.Inc("evaluations")
